@@ -75,6 +75,7 @@ impl C18 {
             (true, 0) => "two-bar MultiProgress".into(),
             (true, 1) => "bottom-aligned MultiProgress: a finished, b finished-and-cleared, c live".into(),
             (true, 2) => "three-bar MultiProgress whose middle bar was dropped (deferred zombie)".into(),
+            (true, 4) => "MultiProgress that was hidden while a member printed a line, then given the terminal".into(),
             (true, _) => "bottom-aligned three-bar MultiProgress".into(),
         }
     }
@@ -85,14 +86,22 @@ impl C18 {
         spy.st().fault = fault;
         let mk = |t: ProgressDrawTarget| ProgressBar::with_draw_target(Some(5), t).with_style(style(2));
         if self.multi {
-            let mp = MultiProgress::with_draw_target(ProgressDrawTarget::term_like(spy.boxed()));
+            let mp = if self.root == 4 { MultiProgress::with_draw_target(ProgressDrawTarget::hidden()) } else { MultiProgress::with_draw_target(ProgressDrawTarget::term_like(spy.boxed())) };
             if self.root == 1 || self.root == 3 {
                 mp.set_alignment(indicatif::MultiProgressAlignment::Bottom);
             }
             let a = mp.add(mk(ProgressDrawTarget::hidden()).with_prefix("a"));
             let b = mp.add(mk(ProgressDrawTarget::hidden()).with_prefix("b"));
             let mut w = World { spy, mp: Some(mp), a: Some(a), b: Some(b), extra: vec![] };
-            if self.root != 0 {
+            if self.root == 4 {
+                // a line printed through a member while the MultiProgress is hidden stays pending
+                w.spy.st().fault = Fault::None;
+                w.a.as_ref().unwrap().println("pending");
+                w.mp.as_ref().unwrap().set_draw_target(ProgressDrawTarget::term_like(w.spy.boxed()));
+                let mut st = w.spy.st();
+                st.fallible_calls = 0;
+                st.fault = fault;
+            } else if self.root != 0 {
                 // the root history runs fault-free; fault indices count from the end of it
                 w.spy.st().fault = Fault::None;
                 let c = w.mp.as_ref().unwrap().add(mk(ProgressDrawTarget::hidden()).with_prefix("c"));
@@ -344,7 +353,7 @@ impl Hist for C18 {
 fn configs(tier: Tier) -> Vec<(C18, usize)> {
     let d = if tier == Tier::Quick { 3 } else { 4 };
     let d2 = if tier == Tier::Quick { 2 } else { 3 };
-    vec![(C18 { multi: false, root: 0 }, d + 1), (C18 { multi: true, root: 0 }, d), (C18 { multi: true, root: 1 }, d2), (C18 { multi: true, root: 2 }, d2), (C18 { multi: true, root: 3 }, d2)]
+    vec![(C18 { multi: false, root: 0 }, d + 1), (C18 { multi: true, root: 0 }, d), (C18 { multi: true, root: 1 }, d2), (C18 { multi: true, root: 2 }, d2), (C18 { multi: true, root: 3 }, d2), (C18 { multi: true, root: 4 }, d2)]
 }
 
 fn long_case(multi: bool, hz: Option<u8>, k: usize, op: u8, n: usize, hist: &[String]) -> Option<(String, String)> {
@@ -454,7 +463,7 @@ pub fn meta(tier: Tier) -> Meta {
     let d2 = if tier == Tier::Quick { 2 } else { 3 };
     Meta {
         level: "fault_enumeration",
-        rule: format!("every history of <= {} operations on a single bar (14 operations) and <= {d} on a two-bar MultiProgress (24 operations incl. println/clear/suspend/remove/add/insert/set_draw_target and finish/drop of the sibling), plus histories of <= {d2} operations from three further MultiProgress roots (bottom alignment with padding pending, a deferred zombie in the middle, bottom alignment with three live bars), is first run fault-free to count its N fallible terminal calls; then it is re-run for every k < N with the k-th call failing once, and with the k-th and all later calls failing; oracle: no call unwinds, io::Result-returning calls report exactly the injected failures, getters equal the fault-free run after every operation, an operation that paints in the fault-free run still reaches the terminal after a single earlier failure, and a fixed epilogue (tick, inc, getters, sibling tick, mp.println, mp.clear, drop all) completes; plus long persistent failures: println / force_draw / tick / suspend / mp.println / mp.clear repeated 300 (1500) times on unlimited, 20 Hz and 255 Hz targets while every terminal call from the k-th on fails (k in 0,1,4,9); distinct = (history, N); non-trivial = N > 0", d + 1),
+        rule: format!("every history of <= {} operations on a single bar (14 operations) and <= {d} on a two-bar MultiProgress (24 operations incl. println/clear/suspend/remove/add/insert/set_draw_target and finish/drop of the sibling), plus histories of <= {d2} operations from four further MultiProgress roots (bottom alignment with padding pending, a deferred zombie in the middle, bottom alignment with three live bars, a line printed through a member while the MultiProgress was still hidden), is first run fault-free to count its N fallible terminal calls; then it is re-run for every k < N with the k-th call failing once, and with the k-th and all later calls failing; oracle: no call unwinds, io::Result-returning calls report exactly the injected failures, getters equal the fault-free run after every operation, an operation that paints in the fault-free run still reaches the terminal after a single earlier failure, and a fixed epilogue (tick, inc, getters, sibling tick, mp.println, mp.clear, drop all) completes; plus long persistent failures: println / force_draw / tick / suspend / mp.println / mp.clear repeated 300 (1500) times on unlimited, 20 Hz and 255 Hz targets while every terminal call from the k-th on fails (k in 0,1,4,9); distinct = (history, N); non-trivial = N > 0", d + 1),
         assumptions: vec!["a failing terminal call has no effect on the terminal and returns io::ErrorKind::Other".into(), "one fault episode per execution (once, or from then on)".into()],
         bounds: json!({"depth_single": d + 1, "depth_multi": d, "depth_multi_other_roots": d2}),
         exhaustive: true,
